@@ -3,10 +3,11 @@
   python harness/c15_min.py --replay replays/C15/<h>.json      (or --src FILE [--mode infer|check])
   python harness/c15_min.py --all                               (every replay under replays/C15)
 
-ddmin (Zeller/Hildebrandt) over lines, then over the real token list (progs_d.tokens), then a
-final one-token-at-a-time pass.  Predicate "same failure": CPython's compile() gives the same
-verdict (compiles / does not compile) as on the original, and the analysis (c15_run.run_one, i.e. io.check_or_generate_pyi on a virtual file) lets
-an exception of the SAME type escape from the SAME site (innermost pytype frame file:function).
+ddmin (Zeller/Hildebrandt) over lines, then over the real token list (progs_d.tokens), then
+removal of every contiguous window of 2..8 tokens, to a fixpoint.  Predicate "same failure":
+CPython's compile() gives the same verdict (compiles / does not compile) as on the original, and
+the analysis (c15_run.run_one, i.e. io.check_or_generate_pyi on a virtual file) lets an exception
+of the SAME type escape from the SAME site (innermost pytype frame file:function).
 Candidates of one round are evaluated in parallel worker processes with a per-candidate time cap
 (a timed-out candidate does not satisfy the predicate).  Nothing here decides the property; the
 reduced text is what goes into the finding's "what" and can be replayed with ./check C15 --replay.
